@@ -25,9 +25,11 @@ MANIFEST = {
              "posted on progressWakes, real hard deadlines, Stop from every settled state) using the dispatcher's "
              "trace hooks as step and quiescence signal, and the clauses of WorkManagerProps.tla (at most one verdict, "
              "exactly one after Stop, success only if every handler was satisfied, every error has its cause, "
-             "re-issue to the best-ranked available peer, Query/Stop/result hand-back never block, no panic) are "
+             "re-issue to the available peer with the best score AND with the best record as the trace itself shows it "
+             "(successes / failures accounted so far), Query/Stop/result hand-back never block, no panic) are "
              "evaluated by TLC on the observed traces. The real worker.Run is replayed against Worker.tla (mock Peer, "
-             "millisecond timeouts). The repository's own work-manager tests are re-run with the hooks recording; "
+             "millisecond timeouts, unbuffered results channel, quit closed while a result is being handed back to "
+             "nobody). The repository's own work-manager tests are re-run with the hooks recording; "
              "their executions are judged by the same operators and validated against TraceWorkManager.tla.",
         note="Bounded: <=2 addresses, <=3 peer objects, <=2 batches x <=2 requests, retry caps {1,2,unlimited}, "
              "<=2-3 failures per history. Trusts TLC, the scripted worker's adherence to the Worker contract (checked "
@@ -44,11 +46,12 @@ MANIFEST = {
 PROPS = {
     "C12": ["AtMostOneVerdict", "SuccessMeansAllAnswered", "ErrorHasCause", "AllAnsweredGetsVerdict",
             "QueryReturns", "ResultAccepted", "StopReturns", "NoPanic", "OneVerdictAfterStop",
-            "PrefersBetterRanked", "ReissueWhenAvailable", "HardDeadlineEndsBatch"],
+            "PrefersBetterRanked", "PrefersBetterRecord", "ReissueWhenAvailable", "HardDeadlineEndsBatch"],
 }
 # the worker's part of C12 (specs/WorkManager/Worker.tla, WorkerProps.tla)
 WPROPS = ["WorkerOneResultPerJob", "WorkerSuccessMeansFinished", "WorkerResultNamesCause",
-          "WorkerTimeoutAfterQuiet", "WorkerLeavesOnlyOnDisconnect", "WorkerNoSendForCanceledJob"]
+          "WorkerTimeoutAfterQuiet", "WorkerLeavesOnlyOnDisconnect", "WorkerNoSendForCanceledJob",
+          "WorkerStopReturns"]
 WCONF = {"quick": dict(MaxJobs=2, MaxMsgs=3), "thorough": dict(MaxJobs=3, MaxMsgs=4)}
 WOFF = 10000000      # trace ids of the worker part
 
